@@ -1,6 +1,7 @@
 package main
 
 import (
+	"go/token"
 	"go/types"
 	"fmt"
 	"strings"
@@ -37,6 +38,64 @@ func termAtStore(P *Program, fn *ssa.Function, st *ssa.Store) Term {
 		return t
 	}
 	return termTop()
+}
+
+// finalTermOfStored: the term the integer stored by st has when the function returns - the term at the store, or,
+// if the object is completed in place afterwards (`x.f = new(big.Int).Mul(a, b); x.f.Add(x.f, c)`), the term after
+// the last in-place operation on it that the store's block dominates.
+func finalTermOfStored(P *Program, fn *ssa.Function, st *ssa.Store) Term {
+	t := termAtStore(P, fn, st)
+	if st == nil {
+		return t
+	}
+	be := P.bigEval(fn)
+	site := siteOf(st.Val)
+	var last *ssa.Call
+	allInstrs(fn, func(i ssa.Instruction) {
+		c, ok := i.(*ssa.Call)
+		if !ok || bigMethod(c) == "" || !bigMutators[bigMethod(c)] || len(callArgs(c)) == 0 {
+			return
+		}
+		if rs := siteOf(callArgs(c)[0]); rs != site && !loadsStoredCell(rs, st) {
+			return
+		}
+		after := false
+		if c.Block() == st.Block() {
+			for _, ins := range c.Block().Instrs {
+				if ins == ssa.Instruction(st) {
+					after = true
+				}
+				if ins == ssa.Instruction(c) {
+					break
+				}
+			}
+		} else if st.Block().Dominates(c.Block()) {
+			after = true
+		}
+		if after && (last == nil || last.Block().Dominates(c.Block())) {
+			last = c
+		}
+	})
+	if last != nil {
+		if rt, ok := be.Ret[last]; ok {
+			return rt
+		}
+	}
+	return t
+}
+
+// loadsStoredCell: v reads the cell st wrote (the same field of the same struct object).
+func loadsStoredCell(v ssa.Value, st *ssa.Store) bool {
+	u, ok := v.(*ssa.UnOp)
+	if !ok || u.Op != token.MUL {
+		return false
+	}
+	if u.X == st.Addr {
+		return true
+	}
+	a, ok1 := u.X.(*ssa.FieldAddr)
+	b, ok2 := st.Addr.(*ssa.FieldAddr)
+	return ok1 && ok2 && a.Field == b.Field && a.X == b.X
 }
 
 func init() {
@@ -97,7 +156,9 @@ func init() {
 				})
 				// KeyshareP is multiplied in exactly when it is non-nil
 				found := false
-				allInstrs(fn, func(i ssa.Instruction) {
+				// (in Verify or in a worker it was split into)
+				deepVisit(P, fn, 1, func(g *ssa.Function) {
+				allInstrs(g, func(i ssa.Instruction) {
 					c, ok := i.(*ssa.Call)
 					if !ok || bigMethod(c) != "Mul" {
 						return
@@ -118,6 +179,7 @@ func init() {
 							found = (b.Op.String() == "!=" && a.Want == True) || (b.Op.String() == "==" && a.Want == False)
 						}
 					}
+				})
 				})
 				R.decide("C05.b", kCLVerify+":KeyshareP-iff-present", "KeyshareP is multiplied into the representation exactly when it is non-nil", found, "", P.Pos(fn.Pos()))
 				// RepresentToPublicKey passes the key's own bases, modulus and Lm
